@@ -224,7 +224,7 @@ func runLight(r *vk.Run, rng *rand.Rand, p *world.Produced, c LightCase, atk wor
 	for i := 1; i < n; i++ {
 		// adversarial gossip arrives before the genuine header of the same height
 		if rng.Intn(2) == 0 {
-			kind := []string{"unsigned-linked", "garbage-signed", "forged-otherkey", "sig-transplant", "wrong-chain", "own-address", "random", "truncated"}[rng.Intn(8)]
+			kind := []string{"unsigned-linked", "garbage-signed", "forged-otherkey", "sig-transplant", "wrong-chain", "own-address", "random", "truncated", "keyless-signer-header"}[rng.Intn(9)]
 			for _, a := range MakeAdv(rng, p, kind, i, atk) {
 				if a.IsData {
 					continue
